@@ -10,3 +10,7 @@ import Theorems.C03
 #print axioms C03.info_instances_in_catalogue
 #print axioms C03.min_distance_large
 #print axioms C03.exact_distance_attained
+#print axioms C03.bch_ok
+#print axioms C03.bch_instances_in_catalogue
+#print axioms C03.min_distance_bch
+#print axioms BCHAbs.bch_bound
